@@ -41,10 +41,18 @@ static void put_result(const eav_result_t *r)
 #endif
 }
 
+/* eav_t always lives in fresh heap memory.  VERIF_POISON=none leaves it uninitialised (for memcheck's definedness
+ * tracking); VERIF_POISON=<int> overrides the fill byte (poison differential). */
+static int g_poison_mode = -2;
 static eav_t *fresh_eav(int poison)
 {
     eav_t *e = malloc(sizeof *e);
-    memset(e, poison, sizeof *e);
+    if (g_poison_mode == -2) {
+        const char *p = getenv("VERIF_POISON");
+        g_poison_mode = !p ? -1 : !strcmp(p, "none") ? -3 : (int)strtol(p, NULL, 0);
+    }
+    if (g_poison_mode == -3) return e;
+    memset(e, g_poison_mode >= 0 ? g_poison_mode : poison, sizeof *e);
     return e;
 }
 
